@@ -98,6 +98,7 @@ type Exec struct {
 	cl        *cloner
 	SS        *StoreState
 	EnvNondet []string
+	sigs      []sigEntry
 }
 
 func newExec(L *Loaded, init *InitState, cfg *RunConfig, solver *Solver) *Exec {
@@ -572,7 +573,17 @@ func (e *Exec) step(fr *Frame, in ssa.Instruction) {
 		fr.Env[x] = e.slice(fr, x)
 	case *ssa.MakeSlice:
 		n := e.concreteInt(e.get(fr, x.Len), "make len")
-		c := e.concreteInt(e.get(fr, x.Cap), "make cap")
+		var c int
+		if ct := e.get(fr, x.Cap).(*Term); ct.IsConst() {
+			c = int(ct.I64())
+		} else {
+			// symbolic capacity: the capacity only affects aliasing after append, which Go
+			// programs must not rely on; a capacity below the length panics.
+			if e.branch(BVSlt(ct, BVI(64, int64(n)))) {
+				panic(&GoPanic{Msg: "makeslice: cap out of range"})
+			}
+			c = n
+		}
 		if n < 0 || c < n {
 			panic(&GoPanic{Msg: "makeslice: len out of range"})
 		}
